@@ -157,7 +157,7 @@ func VH_FRAG_xz() {
 	vAssert(err == nil, "valid stream opens under any fragmentation")
 	nsym := 3
 	if vThorough() {
-		nsym = 6
+		nsym = 5
 	}
 	out, err := vReadSched(r, nsym)
 	vAssert(err == io.EOF, "clean end of stream")
